@@ -31,18 +31,21 @@ pub struct Case {
     pub clone: bool,
     pub init: Vec<(i64, Option<i64>, i64, i64)>,
     pub ops: Vec<TStmt>,
+    /// engine-discipline layer: engine + M-code undo model only (no SQL-standard spec)
+    pub disc: bool,
 }
 
 impl Case {
     pub fn show(&self) -> String {
         let ov = |v: &Option<i64>| v.map(|x| x.to_string()).unwrap_or("n".into());
-        format!("{} clone={} init={} ops={}", self.sc.tag(), self.clone as u8,
+        format!("{}{} clone={} init={} ops={}", if self.disc { "layer=disc " } else { "" }, self.sc.tag(), self.clone as u8,
             if self.init.is_empty() { "-".to_string() } else { self.init.iter().map(|(i, u, a, b)| format!("{}:{}:{}:{}", i, ov(u), a, b)).collect::<Vec<_>>().join(",") },
             if self.ops.is_empty() { "-".to_string() } else { show_ops(&self.ops) })
     }
     pub fn parse(line: &str) -> Option<Case> {
         let mut sc = Schema { pk: Pk::Int, uniq: false, idx_a: false, split: false };
         let mut clone = false;
+        let mut disc = false;
         let mut init = vec![];
         let mut ops = vec![];
         for f in line.split_whitespace() {
@@ -53,6 +56,7 @@ impl Case {
                 "idxa" => sc.idx_a = v == "1",
                 "split" => sc.split = v == "1",
                 "clone" => clone = v == "1",
+                "layer" => disc = v == "disc",
                 "init" => {
                     if v != "-" {
                         for r in v.split(',') {
@@ -66,7 +70,7 @@ impl Case {
                 _ => return None,
             }
         }
-        Some(Case { sc, clone, init, ops })
+        Some(Case { sc, clone, init, ops, disc })
     }
 }
 
@@ -420,7 +424,127 @@ impl<'a> Runner<'a> {
         (mresp == "done", eres)
     }
 
+    /// Engine-discipline layer.  The SQL-standard spec and the engine resolve savepoint names
+    /// differently (known findings dup-name / release-outer), which ends a spec-driven case at the
+    /// first such statement.  Here the history runs on the engine and on the M-code `undo` model only
+    /// (statement outcome + physical state after every statement), and the property oracle follows
+    /// the savepoints the ENGINE's own rules keep alive: RELEASE n removes one savepoint named n,
+    /// ROLLBACK TO n keeps n and destroys the savepoints created after it.  A savepoint that was
+    /// created and neither released nor destroyed must be accepted by ROLLBACK TO, and the state
+    /// afterwards must be the observation taken when that savepoint was created (with two live
+    /// savepoints of one name either of them is accepted).
+    fn run_discipline_case(&mut self, rep: &mut Report, case: &Case, layer: &str) {
+        self.seq += 1;
+        let sc = &case.sc;
+        let dir = format!("{}/txnd-{}-{}", self.ctx.scratch, std::process::id(), self.seq);
+        let _ = std::fs::remove_dir_all(&dir);
+        let d2 = dir.clone();
+        let db = match guarded(move || Database::create(&d2)) { Ok(Ok(db)) => db, _ => { rep.count("abandon:create-failed"); return; } };
+        let mut run = Run { case, main: Some(db), work: None, dir: dir.clone(), stack: vec![], live: vec![], undone_log: vec![], last_scope: "txn".into(),
+            points: 0, nontrivial: false, undo_on: true, failed: false, root_moved: false, dup_seen: false, outer_release: false, ins_total: 0, soft: false };
+        self.undo.ask(&sc.undo_reset());
+        let mut ok = true;
+        for s in sc.create_sqls() { if !matches!(exec_on(run.m(), &s), Res::Ok) { ok = false; } }
+        for (id, u, a, b) in &case.init {
+            let st = TStmt::Insert { id: *id, u: *u, a: *a, b: *b };
+            if exec_on(run.m(), &st.sql(sc)) != Res::Affected(1) { ok = false; break; }
+            match st.undo_line(sc) { Some(l) => { self.undo.ask(&l); } None => ok = false }
+        }
+        if !ok { rep.count("abandon:setup-failed"); drop(run); let _ = std::fs::remove_dir_all(&dir); return; }
+        self.check_undo_state(&mut run, rep, "setup");
+        let mut in_txn = false;
+        let mut begin_obs: Option<Obs> = None;
+        let mut frames: Vec<(String, Obs, usize)> = vec![];   // (name, observation at creation, serial)
+        let mut serial = 0usize;
+        let mut changes = 0usize;     // successful DML statements since BEGIN
+        let mut at_frame: Vec<usize> = vec![];
+        let fail = |rep: &mut Report, what: &str, detail: String| {
+            rep.oracle_fail(case.show(), detail, format!("savepoint-engine-discipline:{what}"));
+        };
+        let diff = |exp: &Obs, act: &Obs| -> Option<&'static str> {
+            if exp.rows != act.rows { Some("rows") } else if exp.count != act.count { Some("count") } else if exp.lookups != act.lookups { Some("index-lookup") } else { None }
+        };
+        for st in &case.ops {
+            if run.failed { break; }
+            let eres = exec_on(run.m(), &st.sql(sc));
+            rep.count(&format!("disc:{}:{}", st.show().chars().next().unwrap(), if matches!(eres, Res::Err(_) | Res::Panic(_)) { "err" } else { "ok" }));
+            let e_ok = !matches!(eres, Res::Err(_) | Res::Panic(_));
+            match st {
+                TStmt::Begin => { if e_ok && !in_txn { in_txn = true; frames.clear(); at_frame.clear(); changes = 0; begin_obs = None; } }
+                TStmt::Commit => { if e_ok { in_txn = false; frames.clear(); } }
+                TStmt::Insert { .. } | TStmt::Update { .. } | TStmt::Delete { .. } => { if let Res::Affected(n) = eres { if n > 0 { changes += 1; } } }
+                _ => {}
+            }
+            // BEGIN's observation is taken right after it (nothing has changed yet)
+            if matches!(st, TStmt::Begin) && e_ok && begin_obs.is_none() { begin_obs = Some(observe(run.m(), sc)); }
+            self.undo_stmt(&mut run, rep, st, &eres);
+            match st {
+                TStmt::Savepoint(n) => {
+                    if in_txn != e_ok { fail(rep, "savepoint-outcome", format!("SAVEPOINT {n} inside a transaction={in_txn}: engine {}", eres.short())); run.failed = true; }
+                    else if e_ok { serial += 1; frames.push((n.clone(), observe(run.m(), sc), serial)); at_frame.push(changes); }
+                }
+                TStmt::Release(n) => {
+                    let pos = frames.iter().position(|f| f.0 == *n);
+                    if (in_txn && pos.is_some()) != e_ok {
+                        fail(rep, "release-outcome", format!("RELEASE {n}: live savepoints {:?}, engine {}", frames.iter().map(|f| f.0.as_str()).collect::<Vec<_>>(), eres.short()));
+                        run.failed = true;
+                    } else if e_ok {
+                        // with two live savepoints of that name the engine may have removed either: the layer's generator avoids it; take the first
+                        let p = pos.unwrap();
+                        if p + 1 != frames.len() { rep.count("disc:release-not-newest"); }
+                        frames.remove(p); at_frame.remove(p);
+                    }
+                }
+                TStmt::RollbackTo(n) => {
+                    let cands: Vec<usize> = frames.iter().enumerate().filter(|(_, f)| f.0 == *n).map(|(i, _)| i).collect();
+                    if (in_txn && !cands.is_empty()) != e_ok {
+                        fail(rep, "rollback-to-outcome", format!("ROLLBACK TO {n}: live savepoints {:?} (created and neither released nor destroyed by a ROLLBACK TO an older one), engine {}", frames.iter().map(|f| f.0.as_str()).collect::<Vec<_>>(), eres.short()));
+                        run.failed = true;
+                    } else if e_ok {
+                        let act = observe(run.m(), sc);
+                        run.points += 1;
+                        let hit = cands.iter().copied().find(|i| diff(&frames[*i].1, &act).is_none());
+                        match hit {
+                            Some(p) => { if changes > at_frame[p] { run.nontrivial = true; } frames.truncate(p + 1); at_frame.truncate(p + 1); changes = at_frame[p]; rep.count("disc:rollback-to-point-ok"); }
+                            None => {
+                                let p = cands[0];
+                                let what = diff(&frames[p].1, &act).unwrap();
+                                fail(rep, &format!("state-after-rollback-to:{what}"), format!("after ROLLBACK TO {n}: expected the state at its creation rows {} count {} ; got rows {} count {}", short(&frames[p].1.rows), short(&frames[p].1.count), short(&act.rows), short(&act.count)));
+                                run.failed = true;
+                            }
+                        }
+                    }
+                }
+                TStmt::Rollback => {
+                    if in_txn != e_ok { fail(rep, "rollback-outcome", format!("ROLLBACK inside a transaction={in_txn}: engine {}", eres.short())); run.failed = true; }
+                    else if e_ok {
+                        let act = observe(run.m(), sc);
+                        run.points += 1;
+                        if changes > 0 { run.nontrivial = true; }
+                        if let Some(b) = &begin_obs {
+                            if let Some(what) = diff(b, &act) {
+                                fail(rep, &format!("state-after-rollback:{what}"), format!("after ROLLBACK: expected the state at BEGIN rows {} count {} ; got rows {} count {}", short(&b.rows), short(&b.count), short(&act.rows), short(&act.count)));
+                                run.failed = true;
+                            } else { rep.count("disc:rollback-point-ok"); }
+                        }
+                        in_txn = false; frames.clear(); at_frame.clear();
+                    }
+                }
+                _ => {}
+            }
+        }
+        rep.count(&format!("layer:{layer}"));
+        rep.count(&format!("disc-case:{}", if run.failed { "stopped" } else { "completed" }));
+        let key = case.show();
+        rep.case(if run.nontrivial { Some(&key) } else { None });
+        if self.seq % 97 == 0 { rep.sample(format!("{key} -> points={} failed={}", run.points, run.failed)); }
+        let Run { main, .. } = run;
+        if let Some(h) = main { let _ = guarded(std::panic::AssertUnwindSafe(move || drop(h))); }
+        let _ = std::fs::remove_dir_all(&dir);
+    }
+
     fn run_case(&mut self, rep: &mut Report, case: &Case, layer: &str) {
+        if case.disc { return self.run_discipline_case(rep, case, layer); }
         self.seq += 1;
         let sc = &case.sc;
         let dir = format!("{}/txn-{}-{}", self.ctx.scratch, std::process::id(), self.seq);
@@ -735,7 +859,7 @@ fn systematic(out: &mut Vec<Case>) {
                         if *name == "insert-delete-same" { ops.push(TStmt::Delete { wcol: 0, wval: 6 }); }
                         ops.push(match scope { 0 => TStmt::Rollback, 1 => TStmt::RollbackTo("s1".into()), _ => TStmt::DropHandle });
                         if scope == 1 { ops.push(TStmt::Commit); }
-                        out.push(Case { sc: sc.clone(), clone, init: init.clone(), ops });
+                        out.push(Case { sc: sc.clone(), clone, init: init.clone(), ops, disc: false });
                     }
                 }
             }
@@ -752,14 +876,85 @@ fn systematic(out: &mut Vec<Case>) {
         vec![TStmt::Begin, sp("s1"), ins(6), TStmt::RollbackTo("s1".into()), ins(4), TStmt::RollbackTo("s1".into()), TStmt::Rollback],
         vec![TStmt::Begin, sp("s1"), sp("s1"), TStmt::Release("s1".into()), ins(6), TStmt::RollbackTo("s1".into()), TStmt::Commit],
     ] {
-        out.push(Case { sc: sc.clone(), clone: false, init: init.clone(), ops });
+        out.push(Case { sc: sc.clone(), clone: false, init: init.clone(), ops, disc: false });
+    }
+}
+
+/// engine-discipline histories: one transaction, INSERT / UPDATE of the plain column b (whose undo
+/// is clean on the pinned engine), 3+ savepoints, RELEASE of any live savepoint (often not the
+/// newest), ROLLBACK TO any live savepoint, names re-used after their savepoint is gone
+fn gen_discipline(rng: &mut Rng) -> Vec<TStmt> {
+    let names = ["s1", "s2", "s3", "s4"];
+    let mut ops = vec![TStmt::Begin];
+    let mut live: Vec<&str> = vec![];
+    let mut ins_left = 4;
+    let len = rng.range(7, 16) as usize;
+    let dml = |rng: &mut Rng, ins_left: &mut i32| -> TStmt {
+        if *ins_left > 0 && rng.chance(3, 5) { *ins_left -= 1; TStmt::Insert { id: rng.range(1, IDMAX), u: None, a: rng.range(0, 3), b: rng.range(0, 9) } }
+        else { TStmt::Update { scol: 3, sval: Some(rng.range(0, 9)), wcol: 0, wval: rng.range(1, IDMAX) } }
+    };
+    while ops.len() < len {
+        match rng.below(100) {
+            0..=34 => ops.push(dml(rng, &mut ins_left)),
+            35..=64 => {
+                let free: Vec<&str> = names.iter().copied().filter(|n| !live.contains(n)).collect();
+                if free.is_empty() { ops.push(dml(rng, &mut ins_left)); continue; }
+                let n = *rng.pick(&free);
+                live.push(n);
+                ops.push(TStmt::Savepoint(n.into()));
+                ops.push(dml(rng, &mut ins_left));
+            }
+            65..=79 => {
+                if live.is_empty() || rng.chance(1, 12) { ops.push(TStmt::Release((*rng.pick(&names)).into())); if let Some(l) = ops.last() { if let TStmt::Release(n) = l { if let Some(p) = live.iter().position(|x| x == n) { live.remove(p); } } } }
+                else {
+                    // prefer a savepoint that is not the newest
+                    let p = if live.len() >= 2 && rng.chance(3, 4) { rng.below(live.len() as u64 - 1) as usize } else { rng.below(live.len() as u64) as usize };
+                    let n = live.remove(p);
+                    ops.push(TStmt::Release(n.into()));
+                }
+            }
+            _ => {
+                if live.is_empty() || rng.chance(1, 12) { let n = *rng.pick(&names); if let Some(p) = live.iter().position(|x| *x == n) { live.truncate(p + 1); } ops.push(TStmt::RollbackTo(n.into())); }
+                else {
+                    let p = rng.below(live.len() as u64) as usize;
+                    let n = live[p];
+                    live.truncate(p + 1);
+                    ops.push(TStmt::RollbackTo(n.into()));
+                }
+            }
+        }
+    }
+    ops.push(if rng.chance(1, 2) { TStmt::Rollback } else { TStmt::Commit });
+    ops
+}
+
+fn discipline_directed(out: &mut Vec<Case>) {
+    let sc = Schema { pk: Pk::Int, uniq: false, idx_a: false, split: false };
+    let init = vec![(1i64, None, 0i64, 0i64), (2, None, 0, 0)];
+    let ins = |id: i64| TStmt::Insert { id, u: None, a: 0, b: 0 };
+    let sp = |n: &str| TStmt::Savepoint(n.into());
+    let to = |n: &str| TStmt::RollbackTo(n.into());
+    let rel = |n: &str| TStmt::Release(n.into());
+    for ops in [
+        // release of the oldest of three, then back to the newest, then to the middle one
+        vec![TStmt::Begin, sp("s1"), ins(3), sp("s2"), ins(4), sp("s3"), ins(5), rel("s1"), to("s3"), to("s2"), TStmt::Commit],
+        // release of the oldest, back to the middle one, a name re-used afterwards
+        vec![TStmt::Begin, sp("s1"), ins(3), sp("s2"), ins(4), sp("s3"), rel("s1"), to("s2"), ins(5), ins(6), sp("s3"), to("s3"), TStmt::Commit],
+        // release of the middle one of three and of four
+        vec![TStmt::Begin, sp("s1"), ins(3), sp("s2"), ins(4), sp("s3"), ins(5), rel("s2"), to("s3"), to("s1"), TStmt::Rollback],
+        vec![TStmt::Begin, sp("s1"), ins(3), sp("s2"), ins(4), sp("s3"), ins(5), sp("s4"), ins(6), rel("s2"), to("s3"), to("s1"), TStmt::Commit],
+        vec![TStmt::Begin, sp("s1"), ins(3), sp("s2"), ins(4), sp("s3"), ins(5), sp("s4"), ins(6), rel("s1"), rel("s2"), to("s4"), to("s3"), TStmt::Rollback],
+        // release of the newest (the only shape the repository's tests exercise)
+        vec![TStmt::Begin, sp("s1"), ins(3), sp("s2"), ins(4), rel("s2"), to("s1"), TStmt::Commit],
+    ] {
+        out.push(Case { sc: sc.clone(), clone: false, init: init.clone(), ops, disc: true });
     }
 }
 
 pub fn run(ctx: &Ctx) -> Report {
     let mut rep = Report::new(
         "sql_txn",
-        "case = schema variant (INT/TEXT/no primary key x UNIQUE column x secondary index x single-leaf/100 wide rows so the table root has split x own handle/cloned handle) + initial rows + history of BEGIN/COMMIT/ROLLBACK/SAVEPOINT/ROLLBACK TO/RELEASE (names s1..s3, reused), single-row INSERT, UPDATE/DELETE by id / by a (multi-row) / by b, drop of the handle. Systematic layer: every single undone statement kind x scope x variant, every run; random layer: histories of 4..14 statements. Rows are selected as the full column list (prefix projection) to stay clear of the projection defect; statement results are compared with the spec and a case is abandoned (histogram abandon:*) when a DML statement itself already differs before any rollback point. non-trivial = distinct case with at least one rollback point that undoes at least one row change",
+        "case = schema variant (INT/TEXT/no primary key x UNIQUE column x secondary index x single-leaf/100 wide rows so the table root has split x own handle/cloned handle) + initial rows + history of BEGIN/COMMIT/ROLLBACK/SAVEPOINT/ROLLBACK TO/RELEASE (names s1..s3, reused), single-row INSERT, UPDATE/DELETE by id / by a (multi-row) / by b, drop of the handle. Systematic layer: every single undone statement kind x scope x variant, every run; random layer: histories of 4..14 statements. Engine-discipline layer (engine + M-code undo model, no SQL-standard spec): one transaction with 3-4 savepoints, RELEASE of any live savepoint (mostly not the newest), ROLLBACK TO any live savepoint, re-used names; a savepoint that was created and neither released nor destroyed must be accepted by ROLLBACK TO and the state must be the observation taken at its creation. Rows are selected as the full column list (prefix projection) to stay clear of the projection defect; statement results are compared with the spec and a case is abandoned (histogram abandon:*) when a DML statement itself already differs before any rollback point. non-trivial = distinct case with at least one rollback point that undoes at least one row change",
     );
     let mut r = Runner { t_create: 0.0, t_setup: 0.0, t_ops: 0.0, t_close: 0.0, ctx, spec: Model::spawn(&ctx.model_bin, "sqldb"), undo: Model::spawn(&ctx.model_bin, "undo"), dict: KeyDict::new(), seq: 0 };
     let mut rng = Rng::new(ctx.seed);
@@ -773,6 +968,17 @@ pub fn run(ctx: &Ctx) -> Report {
     let mut sys = vec![];
     systematic(&mut sys);
     for c in &sys { r.run_case(&mut rep, c, "systematic"); }
+    let mut dd = vec![];
+    discipline_directed(&mut dd);
+    for c in &dd { r.run_case(&mut rep, c, "discipline-directed"); }
+    let ndisc = if ctx.thorough { 4000 } else { 200 };
+    let mut rng_d = Rng::new(ctx.seed ^ 0xD15C);
+    for _ in 0..ndisc {
+        let sc = Schema { pk: Pk::Int, uniq: false, idx_a: false, split: false };
+        let init = vec![(1i64, None, rng_d.range(0, 3), rng_d.range(0, 9)), (2, None, rng_d.range(0, 3), rng_d.range(0, 9))];
+        let ops = gen_discipline(&mut rng_d);
+        r.run_case(&mut rep, &Case { sc, clone: false, init, ops, disc: true }, "discipline-random");
+    }
     let nrand = if ctx.thorough { 12000 } else { 450 };
     for i in 0..nrand {
         let pk = *rng.pick(&[Pk::Int, Pk::Int, Pk::Text, Pk::None]);
@@ -782,7 +988,7 @@ pub fn run(ctx: &Ctx) -> Report {
         let n = rng.range(2, 3) as usize;
         let init = gen_init(&mut rng, n);
         let ops = gen_history(&mut rng, &sc, 2);
-        r.run_case(&mut rep, &Case { sc, clone, init, ops }, "random");
+        r.run_case(&mut rep, &Case { sc, clone, init, ops, disc: false }, "random");
     }
     rep.notes.push(format!("spec model requests {}, undo model requests {}; seconds: create {:.1} setup {:.1} ops {:.1} close {:.1}", r.spec.requests, r.undo.requests, r.t_create, r.t_setup, r.t_ops, r.t_close));
     rep
